@@ -1,0 +1,18 @@
+//go:build verif
+
+// Contracts for contract-based deductive verification (govc, /verif).
+// This file contains comments only; it adds no code to the package.
+
+package leveldb
+
+//@ # the storage driver's cursor: Close/Error report the cursor's own failures (assumed)
+//@ func (*store).Iterate
+//@   property C18
+//@   requires s.db != nil && iterFunc != nil && cbErr == 0 && !cbStop
+//@   ensures callback-error-returned: cbErr != 0 ==> ref(err) == cbErr
+//@   callassert StateIterFunc not-after-stop-or-error: cbErr == 0 && !cbStop
+//@   loop 1 invariant cbErr == 0 && !cbStop
+
+//@ extern func (github.com/gauss-project/aurorafs/pkg/shed/driver.BatchDB).Search
+//@   ensures result != nil
+//@   assigns nothing
